@@ -10,7 +10,7 @@ VERIFIES = (KH_VERIFY, ROOT_VERIFY, DELEG_VERIFY)
 
 
 def run(chk, prog):
-    chk.rules_live = ["R1", "R2", "R3", "R4", "R5", "R6", "R7", "R8", "R9", "R10", "R11", "R12", "R13", "R14", "R15", "R16", "R17", "R18"]
+    chk.rules_live = ["R1", "R2", "R3", "R4", "R5", "R6", "R7", "R8", "R9", "R10", "R11", "R12", "R13", "R14", "R15", "R16", "R17", "R18", "R19"]
     chk.explanation = (
         "Structural writer/reader rules over the editor: SignedRole is constructed only where its "
         "digest and length are computed from the very buffer that is written; snapshot/timestamp "
@@ -41,6 +41,7 @@ def run(chk, prog):
     r16_every_authorised_key_signs(chk, prog)
     r17_add_key_attaches_every_key(chk, prog)
     r18_publication_walk_follows_links(chk, prog)
+    r19_signs_only_with_role_keys(chk, prog, "R19")
 
 
 def r1_signed_role(chk, prog):
@@ -757,3 +758,29 @@ def r18_publication_walk_follows_links(chk, prog):
     chk.require(walks >= 1 and follows >= walks, "R18", "tough::editor::signed::TargetsWalker::walk_targets", "walk-follows-links",
                 "the publication walk over the input directory does not follow symlinks (WalkDir::follow_links(true)): a "
                 "target that was added and signed through a link is silently not copied/linked, and its download fails", site)
+
+
+def r19_signs_only_with_role_keys(chk, prog, rule):
+    """SignedRole::new signs with a supplied key only if the key holder lists that key for the role being
+    signed (whatever the role type): the filter over the supplied keys is exactly
+    role_keys.keyids.contains(keyid). A signature by any other key counts towards `root sign`'s
+    signature-count test without counting towards the role's threshold"""
+    NEW = SR + "::<T>::new"
+    fam = [b for b in prog.bodies.values() if b.path.startswith(NEW + "::{closure#0}::{closure")]
+    filt = []
+    for b in fam:
+        ctx = ctx_of(prog, b.path)
+        cs = [(bb, t) for bb, t in ctx.calls("core::slice::<impl [T]>::contains")
+              if any(o.kind == "upvar" and o.fields[-1:] == ("keyids",) for o in ctx.origins.of_operand(t.args[0]))]
+        if cs:
+            filt.append((b, ctx, cs))
+    if not chk.require(len(filt) == 1, rule, NEW, "key-filter", "unrecognised-idiom: no `role_keys.keyids.contains(keyid)` filter over the "
+                       "supplied keys in SignedRole::new (found %d)" % len(filt)):
+        return
+    b, ctx, cs = filt[0]
+    chk.analysed_body(b)
+    ret = ctx.origins.of_local(0)
+    chk.require(bool(ret) and all(o.kind == "call" and o.key[0] in [bb for bb, _ in cs] for o in ret), rule, short_fn(b.path),
+                "signs-only-with-keys-of-the-role",
+                "the filter over the supplied keys can answer true otherwise than by role_keys.keyids.contains(keyid) (%s): a key "
+                "that the key holder does not list for this role would sign it" % sorted(map(repr, ret))[:3], site_of(b.span))
